@@ -267,7 +267,8 @@ def restyled_idents(enums):
 def soup_literals(rng, stem, k):
     base = stem + str(k)
     pool = [base, base.lower(), base.upper(), base.swapcase(), base + 'x', 'é' + base, 'É' + base, 'Ω' + base.lower(), base.capitalize(), base[::-1] + '_', base + ' ', ' ' + base,
-            '{{' + base + '}}', base + '}}{{']
+            '{{' + base + '}}', base + '}}{{', 'line\nbreak ' + base, 'nul\0' + base, 'tab\t' + base + ' "quoted" \\',
+            (base + '-') * 40]   # control characters, quotes and backslashes, and a literal of a few hundred bytes
     return pool
 
 
